@@ -1,6 +1,7 @@
 (* L2 (Model/Heap.v) refines L1 (Model/Api.v) under the separation invariant Sep; every operation
    writes at most the objects of the handle it is applied to (frame); clones and resolution results
    are fresh and share nothing; SearchParams handles stay valid; the buggy variants break the frame. *)
+From Coq Require Import Permutation.
 From Verif Require Import Lib.Base Lib.Utf8 Lib.GoStr Model.Cfg Gen.Tables Gen.Options Model.Sets Model.Percent Model.Url Model.Host Model.Machine Model.Api Model.Canon Model.Obs Model.Heap.
 
 (* ---------- stores ---------- *)
@@ -1255,3 +1256,600 @@ Section Handles.
     split; [exact (inplace_Sep h' h'' a o o' S' I)|]. intros b N. exact (inplace_frame h' h'' a o o' b S' I N).
   Qed.
 End Handles.
+
+(* ---------- concrete heaps: the premises are satisfiable, and what the invariant excludes ---------- *)
+Lemma Sep_empty : Sep empty_heap.
+Proof. constructor; cbn; intros; try reflexivity; discriminate. Qed.
+
+(* consequences of Sep as boolean checks that compute on a concrete heap *)
+Definition sp_owner_ok (h : heap) (a : loc) : bool :=
+  match rd (hu h) a with
+  | Some o => match o_sp o with
+              | Some sl => match rd (hs h) sl with
+                           | Some s => match s_owner s with Some b => Nat.eqb b a | None => false end
+                           | None => false
+                           end
+              | None => true
+              end
+  | None => true
+  end.
+Lemma Sep_sp_check h a : Sep h -> sp_owner_ok h a = true.
+Proof.
+  intros S. unfold sp_owner_ok. destruct (rd (hu h) a) as [o|] eqn:Ha; [|reflexivity].
+  destruct (o_sp o) as [sl|] eqn:E; [|reflexivity].
+  destruct (sep_sp h S a o sl Ha E) as (s & Hs & Ow). rewrite Hs, Ow. apply Nat.eqb_refl.
+Qed.
+Definition owner_back_ok (h : heap) (sl : loc) : bool :=
+  match rd (hs h) sl with
+  | Some s => match s_owner s with
+              | Some a => match sp_of h a with Some sl' => Nat.eqb sl' sl | None => false end
+              | None => true
+              end
+  | None => true
+  end.
+Lemma Sep_owner_check h sl : Sep h -> owner_back_ok h sl = true.
+Proof.
+  intros S. unfold owner_back_ok. destruct (rd (hs h) sl) as [s|] eqn:Hs; [|reflexivity].
+  destruct (s_owner s) as [a|] eqn:Ow; [|reflexivity].
+  destruct (sep_owner h S sl s a Hs Ow) as (o & Ho & E). unfold sp_of. rewrite Ho, E. apply Nat.eqb_refl.
+Qed.
+Definition path_shared (h : heap) (a b : loc) : bool :=
+  match rd (hu h) a, rd (hu h) b with
+  | Some oa, Some ob => Nat.eqb (o_path oa) (o_path ob)
+  | _, _ => false
+  end.
+Lemma Sep_path_check h a b : Sep h -> a <> b -> path_shared h a b = false.
+Proof.
+  intros S N. unfold path_shared. destruct (rd (hu h) a) as [oa|] eqn:Ha; [|reflexivity].
+  destruct (rd (hu h) b) as [ob|] eqn:Hb; [|reflexivity].
+  apply Nat.eqb_neq. intros E. apply N. exact (sep_inj h S a b oa ob Ha Hb E).
+Qed.
+
+Definition idn (s : str) : str * bool := (s, false).
+Notation run0 ops := (h_run idn default_cfg empty_heap ops).
+Definition the (o : option heap) : heap := match o with Some h => h | None => empty_heap end.
+Definition the1 (o : option (heap * loc)) : heap := match o with Some (h, _) => h | None => empty_heap end.
+Definition thel (r : lres) : heap := match r with LOk h _ => h | _ => empty_heap end.
+Definition q_of (h : heap) (a : loc) : option (option str) := option_map u_query (abs h a).
+Definition sp_val (h : heap) (a : loc) : option (option (list (str * str))) := option_map u_sp (abs h a).
+Definition path_val (h : heap) (a : loc) : option (list str) := option_map u_path (abs h a).
+
+(* "http://h/p?a=1", "http://g/?z=9", "a:b #f" (opaque path "b " with a trailing space), "http://h/a/b" *)
+Definition in_h : str := [104;116;116;112;58;47;47;104;47;112;63;97;61;49].
+Definition in_g : str := [104;116;116;112;58;47;47;103;47;63;122;61;57].
+Definition in_o : str := [97;58;98;32;35;102].
+Definition in_ab : str := [104;116;116;112;58;47;47;104;47;97;47;98].
+
+(* a non-trivial run: parse, resolve against it (both pointer-copy outcomes), clone, touch, append
+   through the clone, SetSearch and SetHash on the original, a mutation through an old handle *)
+Definition ops_ex : list hop :=
+  [HParse in_h; HResolve true 0%nat [120;63;98]; HResolve false 0%nat [46;46;47;121]; HClone 0%nat; HTouch 0%nat;
+   HSp 5%nat (MAppend [98] [50]); HSet 0%nat 7 [63;113;61;49]; HSet 0%nat 8 [102]; HSpVia 0%nat (MAppend [99] [51]);
+   HSet 5%nat 6 [47;122]; HSp 0%nat MSort].
+Definition h_ex : heap := the (run0 ops_ex).
+Lemma h_ex_run : run0 ops_ex = Some h_ex.
+Proof. vm_compute. reflexivity. Qed.
+Example Sep_ex : Sep h_ex.
+Proof. exact (run_Sep idn default_cfg ops_ex empty_heap h_ex Sep_empty h_ex_run). Qed.
+(* handle 0 is http://h/p?c=3&q=1#f, 2 is http://h/x?b, 4 is http://h/y, the clone 5 is http://h/z?a=1&b=2;
+   1 and 3 were the temporary clones of the base *)
+Example abs_ex :
+  map (fun a => option_map (fun u => (Href u false, u_sp u)) (abs h_ex a)) [0;1;2;3;4;5;6]%nat =
+  [Some (Some [104;116;116;112;58;47;47;104;47;112;63;99;61;51;38;113;61;49;35;102], Some [([99],[51]); ([113],[49])]);
+   None;
+   Some (Some [104;116;116;112;58;47;47;104;47;120;63;98], None);
+   None;
+   Some (Some [104;116;116;112;58;47;47;104;47;121], None);
+   Some (Some [104;116;116;112;58;47;47;104;47;122;63;97;61;49;38;98;61;50], Some [([97],[49]); ([98],[50])]);
+   None].
+Proof. vm_compute. reflexivity. Qed.
+
+(* the L1 run of the same operations, on the finite map *)
+Example l1_ex : exists st, l1_run idn default_cfg empty_heap (fun _ => None, 0%nat) ops_ex = Some st /\ R h_ex st.
+Proof.
+  assert (HR : R empty_heap (fun _ => None, 0%nat)) by (split; intros; reflexivity).
+  pose proof (run_sim idn default_cfg ops_ex empty_heap _ Sep_empty HR) as X. rewrite h_ex_run in X.
+  destruct X as (st & L & R' & _). exists st. split; assumption.
+Qed.
+
+(* a heap with one Url (0) whose SearchParams object (0) exists: premises of handle_stability *)
+Definition ops_a : list hop := [HParse in_h; HTouch 0%nat].
+Definition h_a : heap := the (run0 ops_a).
+Lemma h_a_run : run0 ops_a = Some h_a.
+Proof. vm_compute. reflexivity. Qed.
+Lemma Sep_a : Sep h_a.
+Proof. exact (run_Sep idn default_cfg _ empty_heap h_a Sep_empty h_a_run). Qed.
+Example sp_of_a : sp_of h_a 0%nat = Some 0%nat.
+Proof. vm_compute. reflexivity. Qed.
+
+Definition app_b2 (l : list (str * str)) : list (str * str) := sp_append l [98] [50].
+
+(* ----- Theorem 7: the buggy variants break the frame; Sep is what excludes them ----- *)
+
+(* D9: the clone's SearchParams is owned by the original.  c := u.Clone(); c.SearchParams().Append("b","2")
+   changes u and leaves c's query as it was. *)
+Definition h_d9 : heap := the1 (h_clone_D9 h_a 0%nat).
+Definition h_d9' : heap := the (h_sp_via default_cfg app_b2 h_d9 1%nat).
+Theorem mutant_D9 :
+  Sep h_a /\ h_clone_D9 h_a 0%nat = Some (h_d9, 1%nat) /\
+  h_sp_via default_cfg app_b2 h_d9 1%nat = Some h_d9' /\            (* an operation on the clone 1 *)
+  q_of h_d9 0%nat = Some (Some [97;61;49]) /\
+  q_of h_d9' 0%nat = Some (Some [97;61;49;38;98;61;50]) /\          (* frame fails: the ORIGINAL 0 changed *)
+  q_of h_d9' 1%nat = q_of h_d9 1%nat /\                             (* and the clone's query did not *)
+  ~ Sep h_d9.
+Proof.
+  split; [exact Sep_a|]. split; [vm_compute; reflexivity|]. split; [vm_compute; reflexivity|].
+  split; [vm_compute; reflexivity|]. split; [vm_compute; reflexivity|]. split; [vm_compute; reflexivity|].
+  intros S. assert (E : sp_owner_ok h_d9 1%nat = false) by (vm_compute; reflexivity).
+  rewrite (Sep_sp_check h_d9 1%nat S) in E. discriminate E.
+Qed.
+
+(* the clone copies the searchParams pointer: clone.SetSearch("") empties the ORIGINAL's parameter list *)
+Definition h_ss : heap := the1 (h_clone_shared_sp h_a 0%nat).
+Definition h_ss' : heap := the (h_set idn default_cfg h_ss 1%nat 7 []).
+Theorem mutant_shared_sp :
+  h_clone_shared_sp h_a 0%nat = Some (h_ss, 1%nat) /\
+  h_set idn default_cfg h_ss 1%nat 7 [] = Some h_ss' /\
+  sp_val h_ss 0%nat = Some (Some [([97], [49])]) /\
+  sp_val h_ss' 0%nat = Some (Some []) /\                            (* frame fails *)
+  ~ Sep h_ss.
+Proof.
+  split; [vm_compute; reflexivity|]. split; [vm_compute; reflexivity|].
+  split; [vm_compute; reflexivity|]. split; [vm_compute; reflexivity|].
+  intros S. assert (E : sp_owner_ok h_ss 1%nat = false) by (vm_compute; reflexivity).
+  rewrite (Sep_sp_check h_ss 1%nat S) in E. discriminate E.
+Qed.
+
+(* the clone copies the path pointer.  Url 0 is "a:b #f" with the opaque path "b ": clone.SetHash("") calls
+   path.stripTrailingSpacesIfOpaque, which writes the SHARED Path object in place *)
+Definition h_o : heap := the (run0 [HParse in_o]).
+Definition h_sh : heap := the1 (h_clone_shared_path h_o 0%nat).
+Definition h_sh' : heap := the (h_set idn default_cfg h_sh 1%nat 8 []).
+Theorem mutant_shared_path :
+  Sep h_o /\ h_clone_shared_path h_o 0%nat = Some (h_sh, 1%nat) /\
+  h_set idn default_cfg h_sh 1%nat 8 [] = Some h_sh' /\
+  path_val h_sh 0%nat = Some [[98; 32]] /\
+  path_val h_sh' 0%nat = Some [[98]] /\                             (* frame fails *)
+  ~ Sep h_sh.
+Proof.
+  split; [apply (run_Sep idn default_cfg [HParse in_o] empty_heap h_o Sep_empty); vm_compute; reflexivity|].
+  split; [vm_compute; reflexivity|]. split; [vm_compute; reflexivity|].
+  split; [vm_compute; reflexivity|]. split; [vm_compute; reflexivity|].
+  intros S. assert (E : path_shared h_sh 0%nat 1%nat = true) by (vm_compute; reflexivity).
+  rewrite (Sep_path_check h_sh 0%nat 1%nat S) in E; discriminate.
+Qed.
+
+(* the same with a hierarchical path: clone.SetPathname("/z") rewrites the original's path *)
+Definition h_h : heap := the (run0 [HParse in_h]).
+Definition h_sq : heap := the1 (h_clone_shared_path h_h 0%nat).
+Definition h_sq' : heap := the (h_set idn default_cfg h_sq 1%nat 6 [47;122]).
+Theorem mutant_shared_path_2 :
+  h_clone_shared_path h_h 0%nat = Some (h_sq, 1%nat) /\
+  h_set idn default_cfg h_sq 1%nat 6 [47;122] = Some h_sq' /\
+  path_val h_sq 0%nat = Some [[112]] /\ path_val h_sq' 0%nat = Some [[122]].
+Proof. split; [|split; [|split]]; vm_compute; reflexivity. Qed.
+
+(* D10: Clone calls u.SearchParams(): cloning WRITES the original (its parameter list comes into being) *)
+Definition h_d10 : heap := the1 (h_clone_D10 default_cfg h_h 0%nat).
+Theorem mutant_D10 :
+  h_clone_D10 default_cfg h_h 0%nat = Some (h_d10, 1%nat) /\
+  sp_val h_h 0%nat = Some None /\ sp_val h_d10 0%nat = Some (Some [([97], [49])]).
+Proof. split; [|split]; vm_compute; reflexivity. Qed.
+(* (the heap stays separated; the defect is a write to the source of a clone - a data race when the
+   source is the shared base of concurrent resolutions - and it is excluded by clone_fresh: abs h' a = abs h a) *)
+
+(* BasicParser without the entry clone of the base: resolving "c" against http://h/a/b shortens and
+   extends the BASE's Path object *)
+Definition h_b : heap := the (run0 [HParse in_ab]).
+Definition h_nc : heap := thel (h_resolve_noclone idn default_cfg h_b 0%nat [99]).
+Theorem mutant_resolve_noclone :
+  h_resolve_noclone idn default_cfg h_b 0%nat [99] = LOk h_nc 1%nat /\
+  path_val h_b 0%nat = Some [[97]; [98]] /\
+  path_val h_nc 0%nat = Some [[97]; [99]] /\                        (* the base was modified *)
+  ~ Sep h_nc.
+Proof.
+  split; [vm_compute; reflexivity|]. split; [vm_compute; reflexivity|]. split; [vm_compute; reflexivity|].
+  intros S. assert (E : path_shared h_nc 0%nat 1%nat = true) by (vm_compute; reflexivity).
+  rewrite (Sep_path_check h_nc 0%nat 1%nat S) in E; discriminate.
+Qed.
+
+(* ----- two PUBLIC methods leave the invariant (they are outside the verified subset of the API) ----- *)
+
+(* p2 := u.SearchParams().Clone(): a detached copy that still names u as its owner.  p2.Append("b","2")
+   rewrites u's query but not u's parameter list: Query and SearchParams disagree, a state L1 cannot express *)
+Definition h_sc : heap := the1 (h_sp_clone h_a 0%nat).
+Definition h_sc' : heap := the (h_sp_mutate default_cfg app_b2 h_sc 1%nat).
+Theorem public_SearchParams_Clone_leaves_Sep :
+  h_sp_clone h_a 0%nat = Some (h_sc, 1%nat) /\ ~ Sep h_sc /\
+  h_sp_mutate default_cfg app_b2 h_sc 1%nat = Some h_sc' /\
+  q_of h_sc' 0%nat = Some (Some [97;61;49;38;98;61;50]) /\ sp_val h_sc' 0%nat = Some (Some [([97], [49])]).
+Proof.
+  split; [vm_compute; reflexivity|]. split.
+  - intros S. assert (E : owner_back_ok h_sc 1%nat = false) by (vm_compute; reflexivity).
+    rewrite (Sep_owner_check h_sc 1%nat S) in E. discriminate E.
+  - split; [|split]; vm_compute; reflexivity.
+Qed.
+
+(* v.SetSearchParams(u.SearchParams()) does not set the owner: v.SearchParams().Append("b","2") then rewrites
+   u's query (and the list both share), v's query is stale *)
+Definition h_2 : heap := the (run0 [HParse in_h; HParse in_g; HTouch 0%nat]).
+Definition h_sx : heap := the (h_set_searchparams default_cfg h_2 1%nat 0%nat).
+Definition h_sx' : heap := the (h_sp_via default_cfg app_b2 h_sx 1%nat).
+Theorem public_SetSearchParams_leaves_Sep :
+  h_set_searchparams default_cfg h_2 1%nat 0%nat = Some h_sx /\ ~ Sep h_sx /\
+  h_sp_via default_cfg app_b2 h_sx 1%nat = Some h_sx' /\
+  q_of h_sx' 0%nat = Some (Some [97;61;49;38;98;61;50]) /\          (* an operation on 1 changed 0 *)
+  q_of h_sx' 1%nat = Some (Some [122;61;57]).                       (* and not 1 *)
+Proof.
+  split; [vm_compute; reflexivity|]. split.
+  - intros S. assert (E : sp_owner_ok h_sx 1%nat = false) by (vm_compute; reflexivity).
+    rewrite (Sep_sp_check h_sx 1%nat S) in E. discriminate E.
+  - split; [|split]; vm_compute; reflexivity.
+Qed.
+
+(* ---------- pairs as pointers: the value list in spobj is a sound abstraction ---------- *)
+Lemma pget_upd s k v j : pget (upd s k (Some v)) j = if Nat.eqb j k then v else pget s j.
+Proof. unfold pget. rewrite rd_upd. destruct (Nat.eqb j k); reflexivity. Qed.
+Lemma pget_alloc s v j : pget (alloc s v) j = if Nat.eqb j (next s) then v else pget s j.
+Proof. unfold pget. rewrite rd_alloc. destruct (Nat.eqb j (next s)); reflexivity. Qed.
+
+Lemma pvals_ext s s' l : (forall k, In k l -> rd s' k = rd s k) -> pvals s' l = pvals s l.
+Proof. intros H. unfold pvals. apply map_ext_in. intros k I. unfold pget. rewrite (H k I). reflexivity. Qed.
+
+Lemma pwf_lt s l k : swf s -> pwf s l -> In k l -> (k < next s)%nat.
+Proof.
+  intros W [_ L] I. destruct (Nat.lt_ge_cases k (next s)) as [Lt|Ge]; [exact Lt|]. elim (L k I). exact (W k Ge).
+Qed.
+
+Lemma map_filter_comm {A B} (f : A -> B) (P : B -> bool) l : map f (filter (fun x => P (f x)) l) = filter P (map f l).
+Proof. induction l as [|x l IH]; [reflexivity|]. cbn. destruct (P (f x)); cbn; rewrite IH; reflexivity. Qed.
+
+Lemma insert_st_map {A B} (f : A -> B) (lt : B -> B -> bool) x l :
+  map f (insert_st (fun a b => lt (f a) (f b)) x l) = insert_st lt (f x) (map f l).
+Proof. induction l as [|y l IH]; [reflexivity|]. cbn. destruct (lt (f y) (f x)); cbn; [rewrite IH|]; reflexivity. Qed.
+Lemma sort_stable_map {A B} (f : A -> B) (lt : B -> B -> bool) l :
+  map f (sort_stable (fun a b => lt (f a) (f b)) l) = sort_stable lt (map f l).
+Proof. unfold sort_stable. induction l as [|x l IH]; [reflexivity|]. cbn [fold_right map]. rewrite insert_st_map, IH. reflexivity. Qed.
+Lemma insert_st_perm {A} (lt : A -> A -> bool) x l : Permutation (insert_st lt x l) (x :: l).
+Proof.
+  induction l as [|y l IH]; [reflexivity|]. cbn. destruct (lt y x); [|reflexivity].
+  rewrite IH. apply perm_swap.
+Qed.
+Lemma sort_stable_perm {A} (lt : A -> A -> bool) l : Permutation (sort_stable lt l) l.
+Proof. unfold sort_stable. induction l as [|x l IH]; [reflexivity|]. cbn [fold_right]. rewrite insert_st_perm. constructor. exact IH. Qed.
+
+Lemma NoDup_snoc {A} (l : list A) x : NoDup l -> ~ In x l -> NoDup (l ++ [x]).
+Proof.
+  intros ND NI. rewrite <- (rev_involutive (l ++ [x])). apply NoDup_rev. rewrite rev_app_distr. cbn.
+  constructor; [rewrite <- in_rev; exact NI|apply NoDup_rev; exact ND].
+Qed.
+
+(* what a pointer-level operation on the slice l may do to the store *)
+Definition p_post (s : pstore) (l : plist) (s' : pstore) (l' : plist) : Prop :=
+  swf s' /\ pwf s' l' /\ (next s <= next s')%nat /\
+  (forall k, ~ In k l -> (k < next s)%nat -> rd s' k = rd s k) /\        (* only pairs of l are written *)
+  (forall k, In k l' -> In k l \/ (next s <= k)%nat).                     (* l' holds pairs of l and fresh ones *)
+
+Lemma p_new_spec vals : forall s, swf s ->
+  pvals (fst (p_new s vals)) (snd (p_new s vals)) = vals /\
+  swf (fst (p_new s vals)) /\ pwf (fst (p_new s vals)) (snd (p_new s vals)) /\
+  (next s <= next (fst (p_new s vals)))%nat /\
+  (forall k, (k < next s)%nat -> rd (fst (p_new s vals)) k = rd s k) /\
+  (forall k, In k (snd (p_new s vals)) -> (next s <= k)%nat).
+Proof.
+  induction vals as [|v rest IH]; intros s W; cbn [p_new].
+  - cbn [fst snd]. repeat split; try assumption; try constructor; try lia; intros k []. 
+  - assert (W1 : swf (alloc s v)).
+    { intros k L. rewrite rd_alloc, next_alloc in *. destruct (Nat.eqb_spec k (next s)); [lia|]. apply W. lia. }
+    specialize (IH (alloc s v) W1). destruct (p_new (alloc s v) rest) as [s' l]. cbn [fst snd] in *.
+    destruct IH as (V & W' & [ND LV] & Nx & Old & Fresh). rewrite next_alloc in *.
+    assert (Hk : rd s' (next s) = Some v).
+    { rewrite (Old (next s)) by lia. rewrite rd_alloc, Nat.eqb_refl. reflexivity. }
+    split; [|split; [|split; [|split; [|split]]]].
+    + unfold pvals in *. cbn [map]. rewrite V. unfold pget. rewrite Hk. reflexivity.
+    + exact W'.
+    + split.
+      * constructor; [|exact ND]. intros I. specialize (Fresh _ I). lia.
+      * intros k [<-|I]; [rewrite Hk; discriminate|exact (LV k I)].
+    + lia.
+    + intros k L. rewrite (Old k) by lia. rewrite rd_alloc. destruct (Nat.eqb_spec k (next s)); [lia|reflexivity].
+    + intros k [<-|I]; [lia|]. specialize (Fresh _ I). lia.
+Qed.
+
+Lemma p_set_aux_spec n v l : forall s isSet, swf s -> pwf s l ->
+  let r := p_set_aux s l n v isSet in
+  (pvals (fst (fst r)) (snd (fst r)), snd r) = sp_set_aux (pvals s l) n v isSet /\
+  next (fst (fst r)) = next s /\
+  (forall k, ~ In k l -> rd (fst (fst r)) k = rd s k) /\
+  (forall k, In k (snd (fst r)) -> In k l) /\
+  NoDup (snd (fst r)) /\
+  (forall k, rd s k <> None -> rd (fst (fst r)) k <> None) /\
+  swf (fst (fst r)).
+Proof.
+  induction l as [|k l IH]; intros s isSet W [ND LV]; cbn [p_set_aux].
+  - cbn. repeat split; try assumption; try constructor; auto.
+  - inversion ND as [|? ? NI ND']; subst.
+    assert (PW : pwf s l) by (split; [exact ND'|intros j I; apply LV; right; exact I]).
+    cbn [pvals map sp_set_aux]. fold (pvals s l).
+    destruct (pget s k) as [n' v'] eqn:G. cbn [fst].
+    destruct (str_eqb n' n) eqn:En.
+    + destruct isSet.
+      * specialize (IH s true W PW). cbv zeta in IH. destruct IH as (E & Nx & Fr & Sub & NDr & Lv & W').
+        split; [exact E|]. split; [exact Nx|]. split; [intros j NIj; apply Fr; intros I; apply NIj; right; exact I|].
+        split; [intros j I; right; exact (Sub j I)|]. split; [exact NDr|]. split; assumption.
+      * set (s1 := upd s k (Some (n', v))).
+        assert (W1 : swf s1).
+        { intros j L. unfold s1 in *. rewrite rd_upd, next_upd in *. destruct (Nat.eqb_spec j k) as [->|]; [|apply W; exact L].
+          elim (LV k (or_introl eq_refl)). apply W. exact L. }
+        assert (PW1 : pwf s1 l).
+        { split; [exact ND'|]. intros j I. unfold s1. rewrite rd_upd. destruct (Nat.eqb_spec j k); [discriminate|apply LV; right; exact I]. }
+        assert (V1 : pvals s1 l = pvals s l).
+        { apply pvals_ext. intros j I. unfold s1. rewrite rd_upd. destruct (Nat.eqb_spec j k) as [->|]; [elim (NI I)|reflexivity]. }
+        specialize (IH s1 true W1 PW1). cbv zeta in IH. rewrite V1 in IH.
+        destruct (p_set_aux s1 l n v true) as [[s2 r] b]. cbn [fst snd] in *.
+        destruct IH as (E & Nx & Fr & Sub & NDr & Lv & W').
+        destruct (sp_set_aux (pvals s l) n v true) as [r0 b0]. injection E as E1 E2.
+        assert (Gk : pget s2 k = (n', v)).
+        { unfold pget. rewrite (Fr k NI). unfold s1. rewrite rd_upd, Nat.eqb_refl. reflexivity. }
+        split; [cbn [pvals map]; fold (pvals s2 r); rewrite Gk, E1, E2; reflexivity|].
+        split; [rewrite Nx; reflexivity|].
+        split.
+        { intros j NIj. rewrite Fr by (intros I; apply NIj; right; exact I). unfold s1. rewrite rd_upd.
+          destruct (Nat.eqb_spec j k) as [->|]; [elim NIj; left; reflexivity|reflexivity]. }
+        split; [intros j [<-|I]; [left; reflexivity|right; exact (Sub j I)]|].
+        split; [constructor; [intros I; exact (NI (Sub k I))|exact NDr]|].
+        split; [|exact W'].
+        intros j Lj. apply Lv. unfold s1. rewrite rd_upd. destruct (Nat.eqb_spec j k); [discriminate|exact Lj].
+    + specialize (IH s isSet W PW). cbv zeta in IH.
+      destruct (p_set_aux s l n v isSet) as [[s2 r] b]. cbn [fst snd] in *.
+      destruct IH as (E & Nx & Fr & Sub & NDr & Lv & W').
+      destruct (sp_set_aux (pvals s l) n v isSet) as [r0 b0]. injection E as E1 E2.
+      assert (Gk : pget s2 k = (n', v')).
+      { unfold pget. rewrite (Fr k NI). fold (pget s k). exact G. }
+      split; [cbn [pvals map]; fold (pvals s2 r); rewrite Gk, E1, E2; reflexivity|].
+      split; [exact Nx|].
+      split; [intros j NIj; apply Fr; intros I; apply NIj; right; exact I|].
+      split; [intros j [<-|I]; [left; reflexivity|right; exact (Sub j I)]|].
+      split; [constructor; [intros I; exact (NI (Sub k I))|exact NDr]|].
+      split; assumption.
+Qed.
+
+Lemma p_iterate_spec g l : forall s, swf s -> pwf s l ->
+  let s' := fold_left (fun s k => upd s k (Some (g (pget s k)))) l s in
+  pvals s' l = map g (pvals s l) /\ next s' = next s /\
+  (forall k, ~ In k l -> rd s' k = rd s k) /\ (forall k, rd s k <> None -> rd s' k <> None) /\ swf s'.
+Proof.
+  induction l as [|k l IH]; intros s W [ND LV]; cbn [fold_left].
+  - cbn. repeat split; auto.
+  - inversion ND as [|? ? NI ND']; subst.
+    set (s1 := upd s k (Some (g (pget s k)))).
+    assert (W1 : swf s1).
+    { intros j L. unfold s1 in *. rewrite rd_upd, next_upd in *. destruct (Nat.eqb_spec j k) as [->|]; [|apply W; exact L].
+      elim (LV k (or_introl eq_refl)). apply W. exact L. }
+    assert (PW1 : pwf s1 l).
+    { split; [exact ND'|]. intros j I. unfold s1. rewrite rd_upd. destruct (Nat.eqb_spec j k); [discriminate|apply LV; right; exact I]. }
+    assert (V1 : pvals s1 l = pvals s l).
+    { apply pvals_ext. intros j I. unfold s1. rewrite rd_upd. destruct (Nat.eqb_spec j k) as [->|]; [elim (NI I)|reflexivity]. }
+    specialize (IH s1 W1 PW1). cbv zeta in IH. destruct IH as (E & Nx & Fr & Lv & W').
+    split; [|split; [|split; [|split]]].
+    + cbn [pvals map]. fold (pvals (fold_left (fun s0 k0 => upd s0 k0 (Some (g (pget s0 k0)))) l s1) l). fold (pvals s l).
+      rewrite E, V1. f_equal. unfold pget at 1. rewrite (Fr k NI). unfold s1. rewrite rd_upd, Nat.eqb_refl. reflexivity.
+    + rewrite Nx. reflexivity.
+    + intros j NIj. rewrite Fr by (intros I; apply NIj; right; exact I). unfold s1. rewrite rd_upd.
+      destruct (Nat.eqb_spec j k) as [->|]; [elim NIj; left; reflexivity|reflexivity].
+    + intros j Lj. apply Lv. unfold s1. rewrite rd_upd. destruct (Nat.eqb_spec j k); [discriminate|exact Lj].
+    + exact W'.
+Qed.
+
+(* every pointer-level mutator computes the value-level function of L1 on the list the slice stands
+   for, and writes only pairs of that slice *)
+Theorem p_mutate_refines m s l : swf s -> pwf s l ->
+  pvals (fst (p_mutate m s l)) (snd (p_mutate m s l)) = spmut_fun m (pvals s l) /\
+  p_post s l (fst (p_mutate m s l)) (snd (p_mutate m s l)).
+Proof.
+  intros W PW. pose proof PW as [ND LV]. destruct m as [n v|n|n v| | |g]; cbn [p_mutate spmut_fun].
+  - (* Append *)
+    unfold p_append, sp_append. cbn [fst snd].
+    assert (Old : forall k, In k l -> rd (alloc s (n, v)) k = rd s k).
+    { intros k I. rewrite rd_alloc. pose proof (pwf_lt s l k W PW I). destruct (Nat.eqb_spec k (next s)); [lia|reflexivity]. }
+    split.
+    + unfold pvals. rewrite map_app. cbn [map]. fold (pvals (alloc s (n, v)) l). rewrite (pvals_ext s _ l Old).
+      rewrite pget_alloc, Nat.eqb_refl. reflexivity.
+    + unfold p_post. rewrite next_alloc. split; [|split; [|split; [|split]]].
+      * intros k L. rewrite rd_alloc, next_alloc in *. destruct (Nat.eqb_spec k (next s)); [lia|]. apply W. lia.
+      * split.
+        -- apply NoDup_snoc; [exact ND|]. intros I. pose proof (pwf_lt s l _ W PW I). lia.
+        -- intros k I. apply in_app_or in I as [I|[<-|[]]]; [rewrite (Old k I); exact (LV k I)|].
+           rewrite rd_alloc, Nat.eqb_refl. discriminate.
+      * lia.
+      * intros k _ L. rewrite rd_alloc. destruct (Nat.eqb_spec k (next s)); [lia|reflexivity].
+      * intros k I. apply in_app_or in I as [I|[<-|[]]]; [left; exact I|right; lia].
+  - (* Delete *)
+    unfold p_delete, sp_delete. cbn [fst snd]. split.
+    + unfold pvals. exact (map_filter_comm (pget s) (fun nv => negb (str_eqb (fst nv) n)) l).
+    + unfold p_post. split; [exact W|]. split; [|split; [lia|split; [reflexivity|]]].
+      * split; [apply NoDup_filter; exact ND|]. intros k I. apply filter_In in I as [I _]. exact (LV k I).
+      * intros k I. apply filter_In in I as [I _]. left; exact I.
+  - (* Set *)
+    unfold p_set, sp_set. pose proof (p_set_aux_spec n v l s false W PW) as X. cbv zeta in X.
+    destruct (p_set_aux s l n v false) as [[s1 r] b]. cbn [fst snd] in X.
+    destruct X as (E & Nx & Fr & Sub & NDr & Lv & W1).
+    destruct (sp_set_aux (pvals s l) n v false) as [r0 b0]. injection E as E1 E2. subst b0 r0.
+    assert (PWr : pwf s1 r) by (split; [exact NDr|intros k I; apply Lv; apply LV; exact (Sub k I)]).
+    destruct b; cbn [fst snd].
+    + split; [reflexivity|]. unfold p_post. split; [exact W1|]. split; [exact PWr|]. split; [lia|].
+      split; [intros k NI _; exact (Fr k NI)|intros k I; left; exact (Sub k I)].
+    + assert (Old : forall k, In k r -> rd (alloc s1 (n, v)) k = rd s1 k).
+      { intros k I. rewrite rd_alloc. pose proof (pwf_lt s1 r k W1 PWr I). destruct (Nat.eqb_spec k (next s1)); [lia|reflexivity]. }
+      split.
+      * unfold pvals. rewrite map_app. cbn [map]. fold (pvals (alloc s1 (n, v)) r). rewrite (pvals_ext s1 _ r Old).
+        rewrite pget_alloc, Nat.eqb_refl. reflexivity.
+      * unfold p_post. rewrite next_alloc. split; [|split; [|split; [|split]]].
+        -- intros k L. rewrite rd_alloc, next_alloc in *. destruct (Nat.eqb_spec k (next s1)); [lia|]. apply W1. lia.
+        -- split.
+           ++ apply NoDup_snoc; [exact NDr|]. intros I. pose proof (pwf_lt s1 r _ W1 PWr I). lia.
+           ++ intros k I. apply in_app_or in I as [I|[<-|[]]]; [rewrite (Old k I); exact (proj2 PWr k I)|].
+              rewrite rd_alloc, Nat.eqb_refl. discriminate.
+        -- lia.
+        -- intros k NI L. rewrite rd_alloc. destruct (Nat.eqb_spec k (next s1)); [lia|]. exact (Fr k NI).
+        -- intros k I. apply in_app_or in I as [I|[<-|[]]]; [left; exact (Sub k I)|right; lia].
+  - (* Sort *)
+    unfold p_sort, sp_sort. cbn [fst snd]. split.
+    + unfold pvals. exact (sort_stable_map (pget s) (fun a b => str_ltb (fst a) (fst b)) l).
+    + unfold p_post. split; [exact W|]. split; [|split; [lia|split; [reflexivity|]]].
+      * split; [exact (Permutation_NoDup (Permutation_sym (sort_stable_perm _ l)) ND)|].
+        intros k I. apply LV. exact (Permutation_in k (sort_stable_perm _ l) I).
+      * intros k I. left. exact (Permutation_in k (sort_stable_perm _ l) I).
+  - (* SortAbsolute *)
+    unfold p_sort_abs, sp_sort_abs. cbn [fst snd]. split.
+    + unfold pvals. exact (sort_stable_map (pget s) (fun a b => str_ltb (fst a ++ snd a) (fst b ++ snd b)) l).
+    + unfold p_post. split; [exact W|]. split; [|split; [lia|split; [reflexivity|]]].
+      * split; [exact (Permutation_NoDup (Permutation_sym (sort_stable_perm _ l)) ND)|].
+        intros k I. apply LV. exact (Permutation_in k (sort_stable_perm _ l) I).
+      * intros k I. left. exact (Permutation_in k (sort_stable_perm _ l) I).
+  - (* Iterate *)
+    unfold p_iterate. cbn [fst snd]. destruct (p_iterate_spec g l s W PW) as (E & Nx & Fr & Lv & W').
+    split; [exact E|]. unfold p_post. split; [exact W'|]. split; [split; [exact ND|intros k I; apply Lv; exact (LV k I)]|].
+    split; [lia|]. split; [intros k NI _; exact (Fr k NI)|intros k I; left; exact I].
+Qed.
+
+(* frame: another slice that shares no pair with l keeps its value, stays well-formed and shares
+   no pair with the new slice *)
+Theorem p_post_frame s l s' l' l2 : swf s -> pwf s l2 -> pdisjoint l l2 -> p_post s l s' l' ->
+  pvals s' l2 = pvals s l2 /\ pwf s' l2 /\ pdisjoint l' l2.
+Proof.
+  intros W PW2 D (W' & PW' & Nx & Fr & Sub).
+  assert (Old : forall k, In k l2 -> rd s' k = rd s k).
+  { intros k I. apply Fr; [intros I1; exact (D k I1 I)|exact (pwf_lt s l2 k W PW2 I)]. }
+  split; [exact (pvals_ext s s' l2 Old)|]. split.
+  - split; [exact (proj1 PW2)|]. intros k I. rewrite (Old k I). exact (proj2 PW2 k I).
+  - intros k I I2. destruct (Sub k I) as [I1|L]; [exact (D k I1 I2)|].
+    pose proof (pwf_lt s l2 k W PW2 I2). lia.
+Qed.
+
+Corollary p_mutate_frame m s l l2 : swf s -> pwf s l -> pwf s l2 -> pdisjoint l l2 ->
+  pvals (fst (p_mutate m s l)) l2 = pvals s l2 /\ pwf (fst (p_mutate m s l)) l2 /\
+  pdisjoint (snd (p_mutate m s l)) l2.
+Proof.
+  intros W PW PW2 D. destruct (p_mutate_refines m s l W PW) as (_ & P).
+  exact (p_post_frame s l _ _ l2 W PW2 D P).
+Qed.
+
+(* SearchParams.Clone (deep) and init: the new slice has the same values and shares no pair with ANY
+   well-formed slice of the old store *)
+Theorem p_clone_spec s l l2 : swf s -> pwf s l2 ->
+  pvals (fst (p_clone s l)) (snd (p_clone s l)) = pvals s l /\
+  swf (fst (p_clone s l)) /\ pwf (fst (p_clone s l)) (snd (p_clone s l)) /\
+  pvals (fst (p_clone s l)) l2 = pvals s l2 /\ pwf (fst (p_clone s l)) l2 /\
+  pdisjoint (snd (p_clone s l)) l2.
+Proof.
+  intros W PW2. unfold p_clone. destruct (p_new_spec (pvals s l) s W) as (V & W' & PW' & Nx & Old & Fresh).
+  assert (Old2 : forall k, In k l2 -> rd (fst (p_new s (pvals s l))) k = rd s k).
+  { intros k I. apply Old. exact (pwf_lt s l2 k W PW2 I). }
+  split; [exact V|]. split; [exact W'|]. split; [exact PW'|]. split; [exact (pvals_ext s _ l2 Old2)|]. split.
+  - split; [exact (proj1 PW2)|]. intros k I. rewrite (Old2 k I). exact (proj2 PW2 k I).
+  - intros k I I2. pose proof (Fresh k I). pose proof (pwf_lt s l2 k W PW2 I2). lia.
+Qed.
+
+(* the seeded defect: Clone copies the slice of pointers.  The original holds [("a","1")]; Set("a","2") on
+   the shallow clone changes the ORIGINAL's list; on the deep clone it does not. *)
+Definition ps0 : pstore := fst (p_new (empty_store _) [([97], [49])]).
+Definition pl0 : plist := snd (p_new (empty_store _) [([97], [49])]).
+Theorem mutant_shallow_pair_copy :
+  let '(s1, cl) := p_clone_shallow ps0 pl0 in
+  let '(s2, cl') := p_mutate (MSet [97] [50]) s1 cl in
+  pvals s1 pl0 = [([97], [49])] /\ pvals s2 pl0 = [([97], [50])] /\ ~ pdisjoint cl pl0.
+Proof.
+  cbn. split; [reflexivity|]. split; [reflexivity|]. intros D. exact (D 0%nat (or_introl eq_refl) (or_introl eq_refl)).
+Qed.
+Example deep_pair_copy :
+  let '(s1, cl) := p_clone ps0 pl0 in
+  let '(s2, cl') := p_mutate (MSet [97] [50]) s1 cl in
+  pvals s1 pl0 = [([97], [49])] /\ pvals s2 pl0 = [([97], [49])] /\ pvals s2 cl' = [([97], [50])].
+Proof. cbn. repeat split. Qed.
+Example pwf_ex : swf ps0 /\ pwf ps0 pl0.
+Proof.
+  destruct (p_new_spec [([97], [49])] (empty_store _)) as (_ & W & PW & _); [intros k _; reflexivity|]. split; assumption.
+Qed.
+
+(* premises of the per-operation theorems on the concrete heap h_a (one Url with its SearchParams) *)
+Example abs_a : option_map (fun u => Href u false) (abs h_a 0%nat) =
+                Some (Some [104;116;116;112;58;47;47;104;47;112;63;97;61;49]).
+Proof. vm_compute. reflexivity. Qed.
+Example set_a : option_map (fun h => option_map (fun u => Href u false) (abs h 0%nat)) (h_set idn default_cfg h_a 0%nat 8 [102]) =
+                Some (Some (Some [104;116;116;112;58;47;47;104;47;112;63;97;61;49;35;102])).
+Proof. vm_compute. reflexivity. Qed.
+Example resolve_a : UrlParse idn default_cfg (match abs h_a 0%nat with Some u => u | None => empty_url [] end) [120] <> PPanic.
+Proof. vm_compute. discriminate. Qed.
+
+(* ---------- what the model leaves out (w.r.t. the Go code) ----------
+   1. Strings behind `host, port, query, fragment *string` are values: no write goes through a shared
+      *string (parser.go:670 writes a cell allocated by the same call; checked by reading the code, not
+      proved).  Go strings are immutable; `unsafe` is outside the model.
+   2. An operation = read the L1 value through the pointers, run the L1 function, write the three
+      objects of the handle back (commit).  Go writes a subset of these fields and in many small steps;
+      the model has no intermediate states, so it says nothing about data races or about the state left
+      behind by a panic (h_set returns None there; L1 calls the slot dead).  Writing back an unchanged
+      field is invisible sequentially.  In particular commit rewrites the parameter list of the
+      SearchParams object for every setter; by setter_sp_frame the list written is the one read unless
+      the setter is SetSearch.
+   3. The parser: the result is built in a fresh Url + Path; the base is cloned first (as the code does);
+      `url.path = base.path` is the boolean `share` of h_resolve (the theorems hold for both values); the
+      temporaries (clone, its SearchParams, the unused Path) are collected when the call returns - their
+      cells become None - instead of staying in the heap as unreachable garbage.  On an error return the
+      heap is the one before the call.  ParseRef(raw, ref) is h_parse followed by h_resolve.
+   4. params []*NameValuePair is a value list in spobj; Section "pairs as pointers" proves this sound
+      (p_mutate_refines, p_mutate_frame, p_clone_spec) for slices that share no pair, but the pair store
+      is not part of `heap`.  Iterate(f) is map-then-update with a pure f; a callback that keeps the
+      *NameValuePair it is given and writes it later is outside the model.  Slice capacity / backing-array
+      reuse (`params[:0]`, `append`) is not modelled: `params` is never handed out.
+   5. One parser (`c`) for all handles; the `parser *parser` field is not an object.
+   6. The typed heap (one store per Go type) builds in that a *path is never a *Url.
+   7. SearchParams.Clone and Url.SetSearchParams are public and leave Sep
+      (public_SearchParams_Clone_leaves_Sep, public_SetSearchParams_leaves_Sep): the theorems cover the API
+      without these two.  NewUrl() (an empty Url for BasicParser) is not modelled.
+   8. Getters do not appear: they are functions of `abs h a` (Model/Url.v), and u.SearchParams() - the one
+      "getter" that writes - is h_searchparams. *)
+
+(* ---------- assumptions ---------- *)
+Print Assumptions inplace_Sep.
+Print Assumptions inplace_frame.
+Print Assumptions extends_Sep.
+Print Assumptions extends_frame.
+Print Assumptions step_sim.
+Print Assumptions Sep_preserved.
+Print Assumptions frame.
+Print Assumptions refines_L1.
+Print Assumptions h_set_stops.
+Print Assumptions clone_fresh.
+Print Assumptions resolve_fresh.
+Print Assumptions parse_fresh.
+Print Assumptions run_sim.
+Print Assumptions run_sim_pure.
+Print Assumptions run_Sep.
+Print Assumptions run_frame.
+Print Assumptions setter_sp_frame.
+Print Assumptions setter_keeps_sp.
+Print Assumptions Parse_no_sp.
+Print Assumptions UrlParse_no_sp.
+Print Assumptions step_handles.
+Print Assumptions handle_stability.
+Print Assumptions old_handle_writes_through.
+Print Assumptions Sep_ex.
+Print Assumptions abs_ex.
+Print Assumptions l1_ex.
+Print Assumptions mutant_D9.
+Print Assumptions mutant_shared_sp.
+Print Assumptions mutant_shared_path.
+Print Assumptions mutant_shared_path_2.
+Print Assumptions mutant_D10.
+Print Assumptions mutant_resolve_noclone.
+Print Assumptions public_SearchParams_Clone_leaves_Sep.
+Print Assumptions public_SetSearchParams_leaves_Sep.
+Print Assumptions p_mutate_refines.
+Print Assumptions p_mutate_frame.
+Print Assumptions p_clone_spec.
+Print Assumptions mutant_shallow_pair_copy.
+Print Assumptions deep_pair_copy.
+Print Assumptions abs_a.
+Print Assumptions set_a.
